@@ -363,6 +363,8 @@ func (visitor *SymbolValidator) VisitUntypedSymbolNode(node *UntypedSymbolNode) 
 		visitor.typeStack = append([]SymbolTypes{visitor.symbolTypes}, visitor.typeStack...)
 		visitor.symbolTypes = visitor.onDeck
 		visitor.onDeck = nil
+		// the symbols of the sub-query are not arguments of the enclosing set function
+		visitor.inSetFunction = false
 	}
 }
 
